@@ -12,7 +12,7 @@ Every handler returns
 -/
 namespace Gv.Oracle.FmtOps
 open Gv Gv.Oracle Gv.Model Gv.Model.Fmt
-open Gv.Spec.Fmt (wellFormed wfClause declaredPhylip declaredNexus reprFmt specAlphabet)
+open Gv.Spec.Fmt (wellFormed wfClause declaredPhylip declaredNexus reprFmt)
 
 /-! ### decoding -/
 
@@ -189,9 +189,11 @@ def partVerdict (declared : Int) (impl : String) : String :=
 def defaultPOpts (o : POpts) (strict : Bool) : Bool :=
   normIgnore o.ignore == 0 && normAlphabet o.alphabet == 2 && o.strict == strict
 
+/-- "the same detected alphabet": the alphabet goalign detects for the alignment that was written
+(`AutoAlphabet` over the regenerated character classes) must be the alphabet of the parsed one -/
 def expectAln (rows : XRows) : String :=
   let l := match rows with | r :: _ => r.2.length | [] => 0
-  s!"ok {specAlphabet rows} {l} {encXRows rows}"
+  s!"ok {autoAlphabet (rows.map (·.2))} {l} {encXRows rows}"
 
 def handle : Handler := fun op args impl =>
   match op, args with
